@@ -653,6 +653,19 @@ def _lib_env(case, env=None):
     if env is not None:
         env.fluence, env.Cd_ratio, env.fast_ratio = fl, cd, fr
         return env
+    # the documented parameter order is (fluence, Cd_ratio, fast_ratio, location): a third of the environments are
+    # built positionally, some leave trailing parameters to their documented defaults (0 = suppressed)
+    style = int(round(float(fl) * 7919 + float(cd) * 31 + float(fr))) % 6
+    _state['env_styles'] = _state.get('env_styles', {})
+    if style == 0:
+        _state['env_styles']['positional'] = _state['env_styles'].get('positional', 0) + 1
+        return A.ActivationEnvironment(fl, cd, fr)
+    if style == 1:
+        _state['env_styles']['positional+location'] = _state['env_styles'].get('positional+location', 0) + 1
+        return A.ActivationEnvironment(fl, cd, fr, 'beam port 3')
+    if style == 2 and fr == 0:
+        _state['env_styles']['fast_ratio defaulted'] = _state['env_styles'].get('fast_ratio defaulted', 0) + 1
+        return A.ActivationEnvironment(fl, cd) if cd != 0 else A.ActivationEnvironment(fl)
     return A.ActivationEnvironment(fluence=fl, Cd_ratio=cd, fast_ratio=fr)
 
 
@@ -1130,6 +1143,9 @@ def finish(ctx):
     reach.stop()
     reach.export(ctx)
     post = _state['post']
+    for style, n in sorted((_state.get('env_styles') or {}).items()):
+        ctx.count('environment.built.' + style.replace(' ', '_'), n)
+    ctx.require('environment.built.positional', 1, 'an ActivationEnvironment built with positional arguments')
     ctx.count('postcondition.activity.calls', post['calls'])
     ctx.count('contract.activity.postcondition_evaluations', post['calls'])
     ctx.count('postcondition.activity.values_checked', post['values'])
